@@ -477,7 +477,7 @@ func Spec() *mon.Spec {
 		ChildSetup: setup,
 		Phases: []mon.Phase{
 			{Name: "catalogue", Quick: 1600, Thorough: 24000, Run: runCatalogue},
-			{Name: "generated", Quick: 8000, Thorough: 200000, Run: runGenerated},
+			{Name: "generated", Quick: 16000, Thorough: 200000, Run: runGenerated},
 		},
 		Floors: map[string]int{"distinct_nontrivial": 2000, "catalogue_pairs": 400, "catalogue_entries_eq": 50, "generated_pairs": 2500, "generated_map_pairs": 500,
 			"generated_pairs_differing_in_zero_sign": 200, "pairs_via_builtins": 250, "other_entries": 600, "pair_classes": 8},
